@@ -393,22 +393,26 @@ private:
 
   void skipWhitespaceOutsideText()
   {
-    // Only skip if next thing is markup or beginning; do not consume text spaces.
-    while (!eof())
+    // Only skip if next thing is markup or the end of input; do not consume text spaces.
+    std::size_t pos = _cur;
+    while (pos < _input.size())
     {
-      char ch = peek();
+      char ch = _input[pos];
       if (ch == ' ' || ch == '\t' || ch == '\r' || ch == '\n')
       {
-        advance();
+        ++pos;
         continue;
       }
       if (ch == '<')
       {
-        // stop; next() will handle
-        return;
+        break;
       }
-      // Non-space text ahead; let readText handle
+      // Non-space text ahead; the spaces belong to it, let readText handle them
       return;
+    }
+    while (_cur < pos)
+    {
+      advance();
     }
   }
 
